@@ -578,7 +578,10 @@ func forEachKeyGridCell(sh, nsh int, f func(cell string, wire []byte)) int {
 		{"[sign,verify]", rc.Array(rc.Int(1), rc.Int(2)), true}, {"[\"verify\",\"sign\"]", rc.Array(rc.Text("verify"), rc.Text("sign")), true},
 		{"[encrypt]", rc.Array(rc.Int(3)), true}, {"[\"bogus\"]", rc.Array(rc.Text("bogus")), true}, {"int", rc.Int(1), true},
 		{"[\"deriveKey\",\"encrypt\"]", rc.Array(rc.Text("deriveKey"), rc.Text("encrypt")), true}, {"[\"decrypt\",\"wrapKey\",\"unwrapKey\",\"deriveBits\"]", rc.Array(rc.Text("decrypt"), rc.Text("wrapKey"), rc.Text("unwrapKey"), rc.Text("deriveBits")), true},
-		{"[\"Sign\"]", rc.Array(rc.Text("Sign")), true}, {"[10,9]", rc.Array(rc.Int(10), rc.Int(9)), true}}
+		{"[\"Sign\"]", rc.Array(rc.Text("Sign")), true}, {"[10,9]", rc.Array(rc.Int(10), rc.Int(9)), true},
+		{"[257]", rc.Array(rc.Int(257)), true}, {"[258]", rc.Array(rc.Int(258)), true}, {"[-255,-254]", rc.Array(rc.Int(-255), rc.Int(-254)), true},
+		{"[2,513]", rc.Array(rc.Int(2), rc.Int(513)), true}, {"[1,65538]", rc.Array(rc.Int(1), rc.Int(65538)), true}, {"[4294967297,4294967298]", rc.Array(rc.Int(4294967297), rc.Int(4294967298)), true},
+		{"[0]", rc.Array(rc.Int(0)), true}, {"[-1,-2]", rc.Array(rc.Int(-1), rc.Int(-2)), true}}
 	cnt := 0
 	for _, kty := range ktys {
 		for _, crv := range crvs {
